@@ -227,6 +227,92 @@ def run (c : Cfg) (e : Env) : (now cur : Nat) → (payload : List Nat) → List 
 /-- `Send` entered at instant 0 with a fresh `ExponentialBackOff` -/
 def send (c : Cfg) (e : Env) (payload : List Nat) (script : List Attempt) : Trace := run c e 0 0 payload script
 
+/-! ## the timeout sender and the request deadline, as seen by the pusher -/
+
+/-- `ctx.Deadline()` of the context handed to the pusher for the attempt started at `start`:
+`context.WithTimeout(ctx, Timeout)` takes the earlier of the request deadline and `start + Timeout`;
+the timeout is counted from the start of *this* attempt (a fresh context per attempt), the request
+deadline is not touched by it ("Intentionally don't overwrite the context inside the request"). -/
+def pusherDeadline (c : Cfg) (e : Env) (start : Nat) : Option Nat :=
+  omin e.deadline (if c.timeout > 0 then some (start + c.timeout) else none)
+
+/-- `ctx.Err()` the pusher sees when its context ends: `true` = `context.Canceled`
+(the request was cancelled strictly before any deadline), `false` = `context.DeadlineExceeded` -/
+def pusherErrCanceled (c : Cfg) (e : Env) (start : Nat) : Bool :=
+  match e.cancel, pusherDeadline c e start with
+  | some x, some d => x < d
+  | some _, none => true
+  | none, _ => false
+
+/-! ## equal instants: what Go allows
+
+When shutdown, cancellation or the deadline fall on exactly the instant at which an independent
+timer of the run fires (the pusher's own sleep ending = `fin`, the back-off timer = `fin + w`), the
+order in which the goroutines run is up to the scheduler.  `afterFailureND` lists every outcome of
+the round that some order produces; `runAll` lists every trace.  `afterFailure`/`run` pick one of
+them (`C05_run_mem_runAll`), and the property theorems are proved for all of them. -/
+
+/-- is outcome `o` of the round (`none` = the timer fires and the loop goes round) produced by some
+scheduling order?  An event strictly before the poll (`< fin`) is certainly seen by it; at `= fin` it
+may or may not be; in the blocking `select` the earliest instant wins, equal instants either way; an
+event at exactly `fin + w` competes with the timer. -/
+def ndAllowed (c : Cfg) (e : Env) (fin w : Nat) (o : Option (Reason × Nat)) : Bool :=
+  let next := fin + w
+  if c.maxElapsed > 0 ∧ c.maxElapsed < next then o == some (.exhausted, fin)      -- arithmetic, no race
+  else if olt e.deadline next then o == some (.deadline, fin)                      -- arithmetic, no race
+  else
+    match o with
+    | none => !olt e.shutdown next && !olt e.ctxDone next
+    | some (.shutdown, t) =>
+      match e.shutdown with
+      | some s => (decide (s ≤ fin) && t == fin) || (decide (fin < s) && decide (s ≤ next) && t == s && !olt e.ctxDone s)
+      | none => false
+    | some (.cancelled, t) =>
+      match e.ctxDone with
+      | some x => (decide (x ≤ fin) && t == fin && !olt e.shutdown fin) || (decide (fin < x) && decide (x ≤ next) && t == x && !olt e.shutdown x)
+      | none => false
+    | some _ => false
+
+/-- `Allowed c e now cur p script tr`: `tr` is a trace of `Send` under some scheduling order -/
+def Allowed (c : Cfg) (e : Env) : (now cur : Nat) → (payload : List Nat) → List Attempt → Trace → Prop
+  | now, _, p, [], tr => tr = { calls := [⟨now, now, p⟩], reason := .ok, tEnd := now }
+  | now, cur, p, a :: as, tr =>
+    match finish c e now a with
+    | none => tr = { calls := [⟨now, now, p⟩], reason := .hang, tEnd := now }
+    | some fin =>
+      if a.ok then tr = { calls := [⟨now, fin, p⟩], reason := .ok, tEnd := fin }
+      else if !c.enabled then tr = { calls := [⟨now, fin, p⟩], reason := .raw, tEnd := fin, permFlag := a.perm }
+      else if a.perm then tr = { calls := [⟨now, fin, p⟩], reason := .perm, tEnd := fin, permFlag := true }
+      else
+        (∃ r t, ndAllowed c e fin (waitOf c (curInterval c cur) a) (some (r, t)) = true ∧
+          tr = { calls := [⟨now, fin, p⟩], reason := r, tEnd := t, sdFlag := (r == .shutdown) }) ∨
+        (ndAllowed c e fin (waitOf c (curInterval c cur) a) none = true ∧
+          ∃ tr', Allowed c e (fin + waitOf c (curInterval c cur) a) (nextCur c (curInterval c cur)) (a.rest.getD p) as tr' ∧
+            tr = { tr' with calls := ⟨now, fin, p⟩ :: tr'.calls })
+
+/-- executable monitor for `Allowed`: follows an observed call sequence `(start, payload)` and return
+`(reason, instant, IsPermanent, IsShutdownErr)` through the script and accepts iff every round took an
+outcome that some scheduling order produces (`C05_accepts_sound`) -/
+def accepts (c : Cfg) (e : Env) (reason : Reason) (tEnd : Nat) (perm sd : Bool) :
+    (now cur : Nat) → (payload : List Nat) → List Attempt → List (Nat × List Nat) → Bool
+  | now, _, p, [], calls => calls == [(now, p)] && reason == .ok && tEnd == now && !perm && !sd
+  | now, cur, p, a :: as, calls =>
+    match calls with
+    | [] => false
+    | (t, pl) :: rest =>
+      t == now && pl == p &&
+      (match finish c e now a with
+       | none => false
+       | some fin =>
+         if a.ok then rest.isEmpty && reason == .ok && tEnd == fin && !perm && !sd
+         else if !c.enabled then rest.isEmpty && reason == .raw && tEnd == fin && perm == a.perm && !sd
+         else if a.perm then rest.isEmpty && reason == .perm && tEnd == fin && perm && !sd
+         else if rest.isEmpty then
+           ndAllowed c e fin (waitOf c (curInterval c cur) a) (some (reason, tEnd)) && !perm && sd == (reason == .shutdown)
+         else
+           ndAllowed c e fin (waitOf c (curInterval c cur) a) none &&
+             accepts c e reason tEnd perm sd (fin + waitOf c (curInterval c cur) a) (nextCur c (curInterval c cur)) (a.rest.getD p) as rest)
+
 /-! ## error trees (`errors.As` over `Unwrap() error` / `Unwrap() []error`) -/
 
 inductive Err
@@ -288,6 +374,15 @@ structure Observed where
   sdFlag : Bool
 deriving Repr
 
+/-- shutdown arrived by instant `t`, and not merely at the very instant at which the request context
+ended (equal instants: either may win) -/
+def sdBefore (e : Env) (t : Nat) : Bool := olt e.shutdown t || (e.shutdown == some t && e.ctxDone != some t)
+
+/-- what the harness observes of a trace -/
+def Trace.observed (tr : Trace) : Observed :=
+  { calls := tr.calls.map (fun cl => (cl.t, cl.payload)), tEnd := tr.tEnd, isNil := tr.reason == .ok,
+    permFlag := tr.permFlag, sdFlag := tr.sdFlag }
+
 /-- upper end of the back-off envelope: `(1+rf)·max(initial, max_interval) + 1` (as a multiple of `rfDen`) -/
 def envelopeHiTimesDen (c : Cfg) : Nat := max c.initial c.maxInt * (c.rfDen + c.rfNum) + c.rfDen
 
@@ -309,7 +404,7 @@ def checkObserved (c : Cfg) (e : Env) (payload : List Nat) (script : List Attemp
   (if idx.any (fun k => k + 1 < n ∧ (callAt (k + 1)).1 < finOf k + ((att k).throttle.getD 0)) then ["C05/retry/wait-shorter-than-throttle"] else []) ++
   (if idx.any (fun k => k + 1 < n ∧ (att k).throttle.isNone ∧ ((callAt (k + 1)).1 - finOf k) * c.rfDen > envelopeHiTimesDen c) then ["C05/retry/wait-above-envelope"] else []) ++
   (if idx.any (fun k => k + 1 < n ∧ (callAt (k + 1)).2 ≠ (att k).rest.getD (callAt k).2) then ["C05/retry/resent-payload-not-remainder"] else []) ++
-  (if n > 0 ∧ !o.isNil ∧ !o.permFlag ∧ !o.sdFlag ∧ c.enabled ∧ ole e.shutdown o.tEnd ∧ o.tEnd > finOf (n - 1) then ["C05/retry/wait-interrupted-by-shutdown-not-classified"] else []) ++
+  (if n > 0 ∧ !o.isNil ∧ !o.permFlag ∧ !o.sdFlag ∧ c.enabled ∧ sdBefore e o.tEnd ∧ o.tEnd > finOf (n - 1) then ["C05/retry/wait-interrupted-by-shutdown-not-classified"] else []) ++
   (if o.isNil ∧ n > 0 ∧ !(att (n - 1)).ok then ["C05/retry/nil-after-failure"] else []) ++
   (if !o.isNil ∧ n > 0 ∧ (att (n - 1)).ok then ["C05/retry/error-after-success"] else [])
 
